@@ -429,12 +429,15 @@ Definition add_cur_seg : SE errh unit :=
   dos h <- se_get;
   if seg_added h then se_ret tt
   else
-    dos t <- deref (c_st h);
+    match c_st h with
+    | None => se_ret tt            (* fix: `and self.cur_st_node is not None` — no set is open, the node stays detached *)
+    | Some t =>
     match c_seg h with
     | Some (NSeg k) =>
         dos_ mod_st t (fun n => st_set_children n (tn_children n ++ [k]));
         se_mod (fun h => set_cur_seg h (c_seg h) true)
     | _ => se_raise OtherError     (* not reachable, see above *)
+    end
     end.
 
 (* add_ele (199-210): `self.cur_seg_node.id` needs a current node; the parent chosen by the id only
@@ -486,18 +489,26 @@ Definition isa_error (cde msg : str) : SE errh unit :=
 (* gs_error (234-245) *)
 Definition gs_error (cde msg : str) : SE errh unit :=
   dos h <- se_get;
-  dos i <- deref (c_gs h);
+  match c_gs h with
+  | None =>                      (* fix: no group is open -> interchange error 024, nothing without an interchange *)
+      match c_isa h with Some _ => isa_error (l "024") msg | None => se_ret tt end
+  | Some i =>
   dos n <- get_gs i;
   dos _ <- se_lift (fmt_i (gs_cur_line n));
-  mod_gs i (fun n => gs_set_errors n (gn_errors n ++ [(cde, msg)])).
+  mod_gs i (fun n => gs_set_errors n (gn_errors n ++ [(cde, msg)]))
+  end.
 
 (* st_error (247-258) *)
 Definition st_error (cde msg : str) : SE errh unit :=
   dos h <- se_get;
-  dos i <- deref (c_st h);
+  match c_st h with
+  | None =>                      (* fix: no set is open -> interchange error 024 *)
+      match c_isa h with Some _ => isa_error (l "024") msg | None => se_ret tt end
+  | Some i =>
   dos n <- get_st i;
   dos _ <- se_lift (fmt_i (st_cur_line n));
-  mod_st i (fun n => st_set_errors n (tn_errors n ++ [(cde, msg)])).
+  mod_st i (fun n => st_set_errors n (tn_errors n ++ [(cde, msg)]))
+  end.
 
 (* seg_error (260-281).  Inside the bare `except:` — _add_cur_seg with no ST node (AttributeError),
    no current node (AttributeError), and a current node that is an ISA/GS/ST node: their add_error
@@ -541,8 +552,8 @@ Definition close_isa_loop (src : src_info) : SE errh unit :=
 Definition ge01_count (x : xseg) : result Z :=
   do v <- xget x "GE01";
   match v with
-  | None => Raise TypeError
-  | Some s => match py_int s with Some z => Ok z | None => Raise ValueError end
+  | None => Ok 0%Z                 (* fix: `except (ValueError, TypeError): self.st_count_orig = 0` *)
+  | Some s => match py_int s with Some z => Ok z | None => Ok 0%Z end
   end.
 
 (* close_gs_loop (308-313) + err_gs.close (632-645): cur_line_ge and ack_code are already set when
